@@ -263,7 +263,14 @@ func analyseContainerWriters(as AnalysisSpec, progs []*Program, cs *Contracts, f
 			verified[f.Key] = true
 		}
 	}
+	only := map[string]bool{}
+	for _, k := range as.List {
+		only[k] = true
+	}
 	for _, key := range keys {
+		if len(only) > 0 && !only[key] {
+			continue
+		}
 		i := strings.LastIndex(key, ".")
 		skey, field := key[:i], key[i+1:]
 		for _, p := range progs {
@@ -1208,4 +1215,139 @@ func pathLines(pe *PathEnd) []string {
 		return pe.Lines
 	}
 	return pe.S.Lines
+}
+
+func init() {
+	analyses["per-iteration"] = analysePerIteration
+}
+
+// analysePerIteration: in every iteration of the (outermost) loop of each listed function - i.e. on every
+// explored path from the loop head back to it - the callee args["callee"] (event kind args["kind"],
+// default call; "go" for spawned calls) happens at most once; exactly once unless args["zero_when"] is
+// given, in which case it happens zero times exactly on the iterations where one of the ";"-separated
+// spec conditions holds (decided by SMT on each path). args["one_also"]: a spec condition that must hold
+// at the end of every iteration in which the callee was called (e.g. what its argument is).
+func analysePerIteration(as AnalysisSpec, progs []*Program, cs *Contracts, funcs []*FuncResult, work string, timeout time.Duration) *AnalysisResult {
+	ar := &AnalysisResult{Name: as.Name}
+	callee := as.Args["callee"]
+	kind := as.Args["kind"]
+	if kind == "" {
+		kind = "call"
+	}
+	parse := func(txt string) []Clause {
+		var out []Clause
+		for _, t := range strings.Split(txt, ";") {
+			if t = strings.TrimSpace(t); t != "" {
+				if cl, err := parseClause(t); err == nil {
+					out = append(out, cl)
+				} else {
+					out = append(out, Clause{Text: "PARSE ERROR " + t})
+				}
+			}
+		}
+		return out
+	}
+	zero := parse(as.Args["zero_when"])
+	also := parse(as.Args["one_also"])
+	for _, key := range as.Functions {
+		fr := findFunc(funcs, key)
+		o := &OblResult{Name: key + "/per-iteration:" + callee, Kind: "per-iteration", Func: key, Desc: "each loop iteration performs " + kind + " " + callee + " exactly once" + map[bool]string{true: " unless " + as.Args["zero_when"], false: ""}[len(zero) > 0], Result: "discharged", Backend: "ssa-walker"}
+		ar.Obls = append(ar.Obls, o)
+		if fr == nil || fr.Unsupported != "" {
+			o.Result, o.Why = "undecided", "function not verified"
+			continue
+		}
+		e := fr.Engine
+		iters := 0
+		check := func(pe *PathEnd, goal, what string) {
+			q := &Query{Lines: pe.S.Lines, Goal: goal}
+			sr := Solve(work, fmt.Sprintf("%s.periter.%d", key, pe.S.PathID), e.assemble(q, true), timeout, "")
+			o.Ms += sr.Ms
+			o.Queries++
+			if sr.Result == "unsat" {
+				if !strings.Contains(o.Backend, sr.Solver) {
+					o.Backend += "," + sr.Solver
+				}
+				return
+			}
+			o.Result, o.Why = "failed", what+" ("+sr.Result+")"
+			o.FailQ, o.Raw = q, sr.Raw
+		}
+		for _, pe := range fr.PathEnds {
+			if pe.Kind != "loopback" || pe.S.Dead {
+				continue
+			}
+			start := -1
+			for i, ev := range pe.S.Trace {
+				if ev.Kind == "loophead" {
+					start = i
+				}
+			}
+			if start < 0 {
+				continue
+			}
+			iters++
+			n := 0
+			for _, ev := range pe.S.Trace[start:] {
+				if ev.Kind == kind && ev.What == callee {
+					n++
+				}
+			}
+			ctx := e.specCtx(pe.S, fr.Fn)
+			evalAny := func(cls []Clause) string {
+				var alts []string
+				for _, cl := range cls {
+					if cl.Expr == nil {
+						o.Result, o.Why = "failed", cl.Text
+						continue
+					}
+					func() {
+						defer func() {
+							if r := recover(); r != nil {
+								if _, ok := r.(unsupported); ok {
+									o.Result, o.Why = "failed", fmt.Sprint("cannot evaluate ", cl.Text)
+								}
+							}
+						}()
+						if t, ok := e.tryEvalBool(pe.S, ctx, cl.Expr); ok {
+							alts = append(alts, t)
+						}
+					}()
+				}
+				return or(alts...)
+			}
+			switch {
+			case n > 1:
+				o.Result, o.Why = "failed", fmt.Sprintf("an iteration performs %s %d times", callee, n)
+			case n == 0 && len(zero) == 0:
+				o.Result, o.Why = "failed", "an iteration does not perform " + callee
+			case n == 0:
+				check(pe, evalAny(zero), "an iteration skips "+callee+" although none of the stated reasons holds")
+			case n == 1:
+				if len(zero) > 0 {
+					check(pe, not(evalAny(zero)), "an iteration performs "+callee+" although a reason to skip holds")
+				}
+				for _, cl := range also {
+					if cl.Expr == nil {
+						o.Result, o.Why = "failed", cl.Text
+						continue
+					}
+					func() {
+						defer func() {
+							if r := recover(); r != nil {
+								o.Result, o.Why = "failed", fmt.Sprint("cannot evaluate ", cl.Text, ": ", r)
+							}
+						}()
+						check(pe, e.evalBool(pe.S, ctx, cl.Expr), "in an iteration that performs "+callee+": "+cl.Text+" does not hold")
+					}()
+				}
+			}
+		}
+		if iters == 0 {
+			o.Result, o.Why = "failed", "no loop iteration explored"
+		}
+		ar.Details = append(ar.Details, fmt.Sprintf("%s: %d iteration paths", key, iters))
+	}
+	ar.Summary = fmt.Sprintf("%d loops checked for exactly-once %s per iteration", len(as.Functions), callee)
+	return ar
 }
